@@ -247,7 +247,9 @@ func (d *rawClientDriver) deviation(w *World) string {
 	if anyRPC != nil {
 		id = anyRPC.id
 	}
-	switch rng.Intn(22) {
+	switch rng.Intn(24) {
+	case 22, 23: // reuse the most recent id (the newest stream, active or already finished)
+		return fmt.Sprintf("rawc t=0 id=%d kind=new method=%%2Fv.S%%2FBD%d rev=%d win=65536 md=-", d.nextID-1, d.nextR, d.rev())
 	case 0: // reuse the id of an existing (active or finished) stream
 		return fmt.Sprintf("rawc t=0 id=%d kind=new method=%%2Fv.S%%2FBD%d rev=%d win=65536 md=-", id, d.nextR, d.rev())
 	case 1: // an id that goes backwards or is negative
